@@ -17,6 +17,29 @@ import signal
 import sys
 import threading
 import time
+import traceback
+
+
+class Trace(list):
+    """the parent's queue operations in program order as [op, queue, value, time, repeat];
+    consecutive identical operations are collapsed into one entry (a parent spinning on a full
+    queue must not produce an unbounded record) and the list is capped"""
+    CAP = 4000
+
+    def __init__(self):
+        super().__init__()
+        self.truncated = 0
+
+    def add(self, op, name, val):
+        now = time.monotonic()
+        if self and self[-1][0] == op and self[-1][1] == name and self[-1][2] == val and op in ("full",):
+            self[-1][4] += 1
+            self[-1][3] = now
+            return
+        if len(self) >= self.CAP:
+            self.truncated += 1
+            return
+        self.append([op, name, val, now, 1])
 
 
 class Proxy:
@@ -29,19 +52,19 @@ class Proxy:
         try:
             self.real.put(obj, block=block, timeout=timeout)
         except queue.Full:
-            self.trace.append(("full", self.name, None if obj is None else int(obj), time.monotonic()))
+            self.trace.add("full", self.name, None if obj is None else int(obj))
             raise
-        self.trace.append(("put", self.name, None if obj is None else int(obj), time.monotonic()))
+        self.trace.add("put", self.name, None if obj is None else int(obj))
 
     def get(self, block=True, timeout=None):
-        self.trace.append(("get_enter", self.name, None, time.monotonic()))
+        self.trace.add("get_enter", self.name, None)
         try:
             obj = self.real.get(block=block, timeout=timeout)
         except queue.Empty:
-            self.trace.append(("timeout", self.name, None, time.monotonic()))
+            self.trace.add("timeout", self.name, None)
             raise
         gid = getattr(getattr(obj, "stats", None), "game_id", None)
-        self.trace.append(("recv", self.name, gid, time.monotonic()))
+        self.trace.add("recv", self.name, gid)
         return obj
 
     def __getattr__(self, k):
@@ -135,7 +158,7 @@ def main(sc_path, out_path):
     cfg = self_play.SelfPlayConfig(engine_factory=fac, size=3, workers=W, ply_limit=int(sc.get("ply_limit", 6)))
     res = {"scenario": sc, "requests": [], "t0": time.monotonic()}
     engine = self_play.MultiprocessSelfPlayEngine(config=cfg)
-    trace = []
+    trace = Trace()
     real_cmd, real_games = engine.job.cmd, engine.job.games
     engine.job.cmd = Proxy(real_cmd, "cmd", trace)
     engine.job.games = Proxy(real_games, "games", trace)
@@ -179,7 +202,9 @@ def main(sc_path, out_path):
             size = 0
         # worker CPU time counts as progress: on a loaded machine a process that is importing or
         # tearing down slowly is not hung; a blocked or dead worker accumulates none
-        return (sum(1 for t in list(trace) if t[0] not in ("get_enter", "timeout")), size,
+        # of the parent's own operations only successful puts and delivered games count: a parent
+        # that burns CPU (e.g. spinning on queue.Full) without completing a get is not progressing
+        return (sum(1 for t in list(trace) if t[0] in ("put", "recv")), size,
                 tuple(p.exitcode for p in engine.processes), tuple(cpu_ticks(p.pid) for p in engine.processes))
 
     def started():
@@ -195,7 +220,20 @@ def main(sc_path, out_path):
         if th.is_alive():
             last = trace[-1] if trace else None
             stuck = bool(last and last[0] == "get_enter" and time.monotonic() - last[3] > 3.0)
-            r.update(outcome="hung", stuck_in_get=stuck)
+            # where is the parent?  (stack of the thread that runs play_many)
+            fr = sys._current_frames().get(th.ident)
+            stack = [f"{f.filename.rsplit('/', 1)[-1]}:{f.lineno} {f.name}" for f in traceback.extract_stack(fr)][-8:] if fr else []
+            in_get = any(x.endswith(" get") for x in stack)
+            spin = bool(last and last[0] == "full" and last[4] > 1000 and not in_get)
+            r.update(outcome="hung", stuck_in_get=stuck, dispatch_spin=spin, parent_stack=stack,
+                     last_parent_op=[last[0], last[1], last[2], last[4]] if last else None,
+                     gets_completed=sum(1 for t in list(trace) if t[0] in ("recv", "timeout")),
+                     outstanding=int(n) - sum(1 for t in list(trace)[start:] if t[0] == "recv"))
+            for qn, q in (("cmd_qsize", real_cmd), ("games_qsize", real_games)):
+                try:
+                    r[qn] = q.qsize()
+                except Exception:
+                    r[qn] = None
             alive_hang = True
         elif "error" in box:
             e = box["error"]
@@ -208,7 +246,8 @@ def main(sc_path, out_path):
             except Exception as e:  # noqa
                 r["queues_empty"] = None
         r["wall"] = round(time.monotonic() - t_req, 2)
-        r["trace"] = [list(x[:3]) for x in trace[start:]]
+        r["trace"] = [[x[0], x[1], x[2], x[4]] for x in trace[start:]]
+        r["trace_truncated"] = trace.truncated
         r["codes_after"] = [p.exitcode for p in engine.processes]
         r["wlog_upto"] = len(read_log(log_path))
         res["requests"].append(r)
@@ -229,7 +268,7 @@ def main(sc_path, out_path):
         else:
             stop["outcome"] = "stopped"
         stop["wall"] = round(time.monotonic() - t_s, 2)
-        stop["trace"] = [list(x[:3]) for x in trace[start:]]
+        stop["trace"] = [[x[0], x[1], x[2], x[4]] for x in trace[start:]]
     res["stop"] = stop
     if stop["called"] and stop.get("outcome") != "hung":
         # p.kill() is asynchronous: give processes that were killed a moment to die before looking
